@@ -339,7 +339,14 @@ def _noval(p2t, thunk):
     """Run with PARAFAC2 validation stubbed by its contract (returns normally): used only where the inputs are arbitrary
     symbolic projections; the validator body has its own obligations."""
     real = p2t._validate_parafac2_tensor
-    p2t._validate_parafac2_tensor = lambda t: (None, None)
+
+    def contract(t):
+        # what the validator returns for a valid PARAFAC2 tensor: per-slice shapes and the rank
+        if isinstance(t, p2t.Parafac2Tensor):
+            return t.shape, t.rank
+        w, fs, ps = t
+        return tuple((p.shape[0], fs[2].shape[0]) for p in ps), fs[0].shape[1]
+    p2t._validate_parafac2_tensor = contract
     try:
         return thunk()
     finally:
